@@ -1,7 +1,13 @@
 (* Dispatch table of the extracted model executable: one command per modelled function. *)
 From FV Require Import Base.Prelude Model.ScriptBlocks Model.MathFuncs gen.MathTable.
+From FV Require Model.CppTypesModel.
 
 Definition dispatch (cmd : string) (arg : sexp) : sexp :=
   if String.eqb cmd "c15.gen" then ScriptBlocks.run_gen arg
   else if String.eqb cmd "c12.audit" then MathFuncs.audit math_env documented
+  else if String.eqb cmd "c10.parse" then CppTypesModel.run_parse arg
+  else if String.eqb cmd "c10.access" then CppTypesModel.run_access arg
+  else if String.eqb cmd "c10.lookup" then CppTypesModel.run_lookup arg
+  else if String.eqb cmd "c10.enum" then CppTypesModel.run_enum arg
+  else if String.eqb cmd "c10.translate" then CppTypesModel.run_translate arg
   else s_tag "unknown-command" [SAtom cmd].
